@@ -76,6 +76,7 @@ def plan(tier, seed):
     for extra in ({'LC_ALL': 'C', 'LANG': 'C', 'PYTHONUTF8': '0', 'PYTHONCOERCECLOCALE': '0'}, {'TZ': 'XYZ-13'}, {'TZ': 'ABC+11', 'PYTHONUTF8': '1'},
                   {'LC_ALL': 'POSIX', 'PYTHONUTF8': '0', 'PYTHONCOERCECLOCALE': '0', 'TZ': 'UTC'}):
         shards.append({'kind': 'sha', 'mode': 'fresh', 'n': ncorp, '_env': {'PYTHONHASHSEED': '3', **extra}})
+    shards.append({'kind': 'strict-import'})
     trials = 10 if tier == 'quick' else 200
     for t in range(trials):
         shards.append({'kind': 'threads', 'trial': t, '_env': {'PYTHONHASHSEED': str(t % 5)}})
@@ -415,6 +416,37 @@ def threads_index(log, t, _cache={}):
     return _cache[key].get(t, -1)
 
 
+def run_strict_import(shard, ctx):
+    """an interpreter that shows (or refuses) what the compiler warns about: importing the library and translating must not produce a
+    warning out of the library's OWN source files - under -W error the same warning is an exception and no text is produced at all, and
+    a SyntaxWarning of today (an invalid escape sequence) is a SyntaxError of a later Python.  Observed in a process of its own: the
+    source files are compiled afresh (no bytecode files are read or written), every warning category is shown."""
+    import subprocess
+    import sys
+    r = ctx.r
+    root = os.environ.get('VERIF_REPO_ROOT', '/repo')
+    code = ('import warnings, sys\n'
+            'import excel2pycl\n'
+            'from excel2pycl.src import context, excel, lexer, ast_builder\n'
+            'from excel2pycl.src.utilities import abstract_excel_in_python_class, executor, parser\n'
+            'import excel2pycl.src.tokens, excel2pycl.src.translators\n'
+            'print("IMPORTED")\n')
+    for flags, what in ((['-W', 'always'], 'shown'), (['-W', 'error::SyntaxWarning', '-W', 'error::DeprecationWarning'], 'raised')):
+        env = dict(os.environ, PYTHONPATH=root, PYTHONDONTWRITEBYTECODE='1')
+        env.pop('PYTHONWARNINGS', None)
+        c = subprocess.run([sys.executable] + flags + ['-c', code], env=env, capture_output=True, text=True, timeout=300)
+        r.ev()
+        r.count('strict_import_processes')
+        own = [ln for ln in c.stderr.splitlines() if 'Warning' in ln and (root.rstrip('/') + '/excel2pycl') in ln]
+        r.nt(('strict-import', what))
+        if own or ('IMPORTED' not in c.stdout and (root.rstrip('/') + '/excel2pycl') in c.stderr and 'Warning' in c.stderr):
+            report(r, ID, None, {'what': 'import of the library in a fresh process, warnings ' + what, 'flags': flags}, (own or c.stderr.splitlines()[-3:])[:4],
+                   'no warning out of the library\'s own source files', monitor='library-source-warns')
+        elif 'IMPORTED' not in c.stdout:
+            r.count('strict_import_failed_elsewhere')      # a dependency warns: not the library's business
+    r.sample({'strict_import': 'python -W always / -W error::SyntaxWarning -c "import excel2pycl, ..." in a fresh process'})
+
+
 def run_shard(shard, ctx):
     if 'replay' in shard:
         c = shard['replay']
@@ -423,7 +455,7 @@ def run_shard(shard, ctx):
         if 'trial' in c:
             return run_threads({'trial': c['trial']}, ctx)
         return run_sha({'mode': 'fresh', 'n': 8}, ctx)
-    {'histories': run_histories, 'sha': run_sha, 'threads': run_threads}[shard['kind']](shard, ctx)
+    {'histories': run_histories, 'sha': run_sha, 'threads': run_threads, 'strict-import': run_strict_import}[shard['kind']](shard, ctx)
 
 
 def finish(r, tier, seed):
